@@ -120,7 +120,7 @@ def dsk6(ctx, c):
         c.ok("find_empty_granule", "returns the first granule of the fill order that is not in use", where)
     else:
         rets = [U(n.value) for n in ast.walk(fn.node) if isinstance(n, ast.Return) and n.value is not None]
-        if loops and any("granule_in_use" in U(n) for n in ast.walk(fn.node)):
+        if any("granule_in_use" in U(n) for n in ast.walk(fn.node)):
             c.undecided("find_empty_granule", "allocation-loop-shape-unknown", str(rets), where)
         else:
             c.finding("find_empty_granule", "returns a granule without testing that it is free",
@@ -215,8 +215,7 @@ def dsk7(ctx, c):
                     c.check(idx_ok and val_ok, "add_file:allocation", "marked in the FAT before the next search",
                             "mark buffer[%s] = %s" % (marked[0], mv), "add_file marks buffer[%s] = %s; the mark must be the granule's FAT byte and differ from the free marker FF" % (marked[0], mv), wa)
                 # loop bound: granules_needed
-                c.check("granules_needed" in U(n.test) or "calculate_granules_needed" in U(n.test), "add_file:allocation-count", "allocates granules_needed granules", "loop test %s" % U(n.test),
-                        "add_file's allocation loop is not bounded by the number of granules needed", wa)
+                c.shape("granules_needed" in U(n.test) or "calculate_granules_needed" in U(n.test), "add_file:allocation-count", "allocates granules_needed granules", "loop test %s" % U(n.test), wa)
     if not found:
         # allocation without the per-granule loop: the list handed to the writer must be proven to hold granules_needed entries
         wcall = next((n for n in ast.walk(af.node) if isinstance(n, ast.Call) and U(n.func).endswith(".write_to_granules") and len(n.args) >= 2), None)
@@ -567,7 +566,7 @@ def dsk3(ctx, c):
                     good = re.search(r"sub\(<%s>, Lin\(P\+%d\)\).*LShift.*Const\(0x8\).*sub\(<%s>, Lin\(P\+%d\)\)" % (bufp, hi, bufp, lo), txt) is not None
                     if val is None:
                         c.undecided("%s.read:%s" % (cls, fld), "field-not-assigned", "", w)
-                    elif "sub(" not in txt:
+                    elif "sub(" not in txt or re.search(r"Lin\(P\+[A-Za-z]", txt):
                         c.undecided("%s.read:%s" % (cls, fld), "read-expression-not-recognised", txt[:80], w)
                     else:
                         c.check(good, "%s.read:%s" % (cls, fld), "(b[%d] << 8) + b[%d]" % (hi, lo), "reads %s" % txt[:100],
